@@ -13,6 +13,7 @@ import json
 import tempfile
 
 from vp import core, values as V
+from checks import c05vars_a, c05vars_b
 
 
 def build_values(tier, seed):
@@ -75,6 +76,11 @@ def _worker_main():
 
 def ident(x):
     return ("ident-result-for", repr(x), type(x).__name__)
+
+
+def combined_vars():
+    # two tracked variables with the same name in two modules (and a third one), read through their modules
+    return ("combined", c05vars_a.BATCH, c05vars_b.BATCH, c05vars_a.OTHER)
 
 
 def totality_mechanism(v, exc_type):
@@ -294,6 +300,25 @@ def run(tier, seed):
                 {"kind": "api", "a": repr(a), "b": repr(b), "returned": repr(r2)},
                 mechanism=V.classify_pair(a, b),
             )
+    # --- tracked variables: every state of (a.BATCH, b.BATCH, a.OTHER) gets its own signature and its own result
+    states = [(1, 2, 0), (2, 1, 0), (3, 3, 0), (4, 4, 0), (1, 2, 1), (0, 0, 0), ("x", "y", 0), ("y", "x", 0), ([1], [2], 0), ([2], [1], 0), (None, 1, 0), (1, None, 0)]
+    cs = CapturingStore(MemoryStore())
+    dds.set_store(cs)
+    seen = {}
+    for st in states + states[:4]:
+        c05vars_a.BATCH, c05vars_b.BATCH, c05vars_a.OTHER = st
+        try:
+            r = dds.keep("/pv", combined_vars)
+        except BaseException as e:
+            rep.violate("keep of a function reading variables %r raised %s: %s" % (st, type(e).__name__, str(e)[:150]), {"kind": "vars", "state": repr(st)}, mechanism="api-keep-raised")
+            continue
+        rep.count("variable_states")
+        sig = (cs.last_sync() or {}).get("/pv")
+        if r != ("combined",) + tuple(st):
+            rep.violate("a function reading two same-named variables of two modules returned %r for the state %r (a result computed for another state was served)" % (r, st), {"kind": "vars", "state": repr(st)}, mechanism="variables-state-collision")
+        elif sig in seen and repr(V.canon_doc(list(seen[sig]))) != repr(V.canon_doc(list(st))):
+            rep.violate("variable states %r and %r share signature %s" % (seen[sig], st, sig and sig[:10]), {"kind": "vars", "state": repr(st)}, mechanism="variables-state-collision")
+        seen.setdefault(sig, st)
     for v in vals[:3] + vals[-3:]:
         rep.sample({"value": V.short(v), "canon": V.short(V.canon_doc(v))})
     for a, b, m in colliding_pairs[:3]:
